@@ -45,6 +45,7 @@ theorem imfOf_direct : ∀ (v : Variant) (u : User), TopClean u.top →
   | .mask, u, hc, _, _, _ => by simp only [imfOf, userImf, (kwArg_direct u hc).1]
   | .nextImfMask, u, hc, _, _, _ => by simp only [imfOf, userImf, (kwArg_direct u hc).1]
   | .maskFreqs, u, hc, _, _, _ => by simp only [imfOf, userImf, (kwArg_direct u hc).1]
+  | .maskSecond, u, hc, _, _, _ => by simp only [imfOf, userImf, (kwArg_direct u hc).1]
 
 /-- the configuration routes exist for the four variants `get_config` knows -/
 def Configurable (v : Variant) : Prop :=
@@ -59,6 +60,7 @@ theorem imfOf_config : ∀ (v : Variant) (K : Assoc), Configurable v →
   | .ensemble, _, _ => ⟨rfl, fun _ => rfl⟩
   | .complete, _, _ => ⟨rfl, fun _ => rfl⟩
   | .mask, _, _ => ⟨rfl, fun _ => rfl⟩
+  | .maskSecond, _, _ => ⟨rfl, fun _ => rfl⟩
   | .nextImfMask, _, h => by simp [Configurable, baseVariant] at h
   | .maskFreqs, _, h => by simp [Configurable, baseVariant] at h
   | .nextImf, _, h => by simp [Configurable, baseVariant] at h
@@ -73,6 +75,7 @@ theorem base_cases : ∀ v : Variant, Configurable v ∨
   | .maskFreqs => Or.inr (Or.inr (Or.inl rfl))
   | .nextImf => Or.inr (Or.inr (Or.inr rfl))
   | .second v => base_cases v
+  | .maskSecond => Or.inl (Or.inr (Or.inr (Or.inr rfl)))
 
 theorem not_configurable_error (v : Variant) (u : User) (h : ¬ Configurable v) :
     kwargsConfig (baseVariant v) u = .error .attributeError := by
